@@ -34,7 +34,11 @@ int main(int argc, char **argv)
     }
     try
     {
-        if (a.prop == "C01")
+        if (a.mode == "threads")
+            runThreadsSpline(c);
+        else if (a.mode == "static_init")
+            runStaticInit(c);
+        else if (a.prop == "C01")
             runC01(c);
         else if (a.prop == "C02")
             runC02(c);
